@@ -49,7 +49,7 @@ def run_case(ctx, n, test_items, scen, user_std='c++17'):
     d = fresh_dir(ctx, 'c15')
     setup(d, scen)
     path = d / 'a.c'
-    path.write_text(build(n))
+    path.write_text(build(n) + ''.join(f'H9{j};\n' for j in range(scen.get('reveal', {}).get('count', 0))))
     p = mk(user_std=user_std)
     loop = RefLoop(p, path, lambda c: test_items(items(Path(c).read_text())), d, max_steps=4 * n * n + 8 * n + 20)
     loop.raised = None
@@ -85,6 +85,16 @@ def judge(ctx, n, label, loop, final, cl, required, test_items, scen):
         if r['result'] != 'OK' and r['after'] != r['before']:
             ctx.report('output-of-failed-tool-run-used', f'tool result {r["result"]} but the candidate file was rewritten', sc)
             return
+    # after an accepted removal the driver continues from the tool-reported count minus the removed chunk
+    for r, nxt in zip(loop.trace, loop.trace[1:]):
+        if r['accepted']:
+            st = r['state']
+            removed = min(st['index'] + st['chunk'], st['instances']) - st['index']
+            reported = len(items(r['before'].decode()))
+            if nxt['state']['instances'] != reported - removed:
+                ctx.report('count-after-accept-differs-from-reported-minus-removed',
+                           f'the tool reported {reported} instances, {removed} were removed, the driver continues with {nxt["state"]["instances"]}', sc)
+                return
     if loop.raised:
         ctx.report('pass-raised', f'clangbinarysearch raised {loop.raised}', sc)
         return
@@ -105,7 +115,9 @@ def judge(ctx, n, label, loop, final, cl, required, test_items, scen):
                 if b[0] != a[1] + 1:
                     ctx.report('ranges-gap-or-overlap', f'{a[:2]} followed by {b[:2]}', sc)
                     return
-            if level[-1][1] != level[-1][2]:
+            # with instances that appear after a removal the driver's count lags behind the file until the next report:
+            # "reaches the last instance" is then judged on the count the driver continues from (checked above)
+            if level[-1][1] != level[-1][2] and 'reveal' not in scen:
                 ctx.report('level-does-not-reach-last-instance', f'last range {level[-1][:2]} of {level[-1][2]}', sc)
                 return
         i = j + 1
@@ -170,6 +182,16 @@ def run(ctx):
             judge(ctx, n, {'required': req, 'faulty': True}, loop, final, cl, None, ti, scen)
             ctx.nontrivial(('fail', n, scen['fail_at'][0], scen['fail_code'], tuple(req)))
     fail_runs(30 if ctx.tier == 'quick' else 300)
+    # an accepted removal that makes new instances appear: the next accepted run reports a larger count
+    for k in range(20 if ctx.tier == 'quick' else 200):
+        n = ctx.rng.randint(2, 6)
+        scen = {'reveal': {'trigger': ctx.rng.randrange(n), 'count': ctx.rng.randint(1, 4)}}
+        req = [i for i in range(n) if ctx.rng.random() < 0.5 and i != scen['reveal']['trigger']]
+        ti = (lambda its, req=req: all(r in its for r in req))
+        loop, final, cl, p = run_case(ctx, n, ti, scen)
+        ctx.count()
+        judge(ctx, n, {'required': req, 'reveal': True}, loop, final, cl, None, ti, scen)
+        ctx.nontrivial(('reveal', n, k))
     # standard detection: the most instances, newest on ties; failing / silent / slow queries count as 0
     for k in range(12 if ctx.tier == 'quick' else 120):
         n = ctx.rng.randint(1, 6)
